@@ -67,9 +67,6 @@ BPF_LD, BPF_LDX, BPF_ST, BPF_STX, BPF_ALU, BPF_JMP, BPF_JMP32, BPF_ALU64 = \
 # width of a memory access from the size bits (opcode & 0x18)
 SIZE_BYTES = {0x00: 4, 0x08: 2, 0x10: 1, 0x18: 8}
 
-# negative errnos as the helpers return them
-ENOENT, E2BIG, EEXIST, EINVAL = 2, 7, 17, 22
-
 HELPER_NAMES = {
     1: "map_lookup_elem", 2: "map_update_elem", 3: "map_delete_elem",
     5: "ktime_get_ns", 7: "get_prandom_u32", 8: "get_smp_processor_id",
@@ -439,7 +436,7 @@ class Instance:
         self.tail_calls = []
         self.on_done = None
 
-        self.stack = space.alloc(f"stack@{id(self):x}", bytearray(STACK_SIZE),
+        self.stack = space.alloc(f"stack@cpu{cpu}", bytearray(STACK_SIZE),
                                  "stack")
         self.stack.init = bytearray(STACK_SIZE)
 
@@ -527,6 +524,18 @@ class Instance:
             (value & ((1 << 8 * size) - 1)).to_bytes(size, "little")
         if region.init is not None:
             region.init[o:o + size] = b"\1" * size
+
+    def _atomic_add(self, addr, size, value):
+        # checked against the real verifier: atomics must be naturally
+        # aligned everywhere ("misaligned value access") and are refused
+        # on packet memory ("BPF_ATOMIC stores into R7 pkt is not allowed")
+        region = self.space.find(addr, size)
+        if region is not None and region.kind not in ("stack", "map_value"):
+            self._fault(f"atomic operation on {region.kind} memory")
+        if addr % size:
+            self._fault(f"misaligned atomic operation at {addr:#x} "
+                        f"size {size}")
+        self.store(addr, size, self.load(addr, size) + value)
 
     def read_bytes(self, addr, size, what):
         """helper argument: `size` readable bytes at `addr`"""
@@ -695,7 +704,7 @@ class Instance:
                     # atomic add (XADD): the complete read-modify-write is
                     # one indivisible step, and the addend register is left
                     # alone (no BPF_FETCH)
-                    self.store(addr, size, self.load(addr, size) + value)
+                    self._atomic_add(addr, size, value)
                 else:
                     self._fault("unknown opcode")
             self.pc = pc + 1
